@@ -18,6 +18,11 @@ PT = "reactivex/operators/_partition.py"
 KEY = f"{GBU}::group_by_until_.group_by_until.subscribe"
 
 
+def is_subscribe_call_(n) -> bool:
+    from ..model import is_subscribe_call
+    return is_subscribe_call(n)
+
+
 def check(repo: Repo, rep: Report) -> None:
     rep.explanation = (
         "Structural clauses of group_by_until_ / group_by_ / partition_*: (1) typestate signature equals the confirmed "
@@ -67,7 +72,7 @@ def check(repo: Repo, rep: Report) -> None:
     rep.require(ex is not None, "expire")
     dele = [s for s in sites(ex) if isinstance(s.node, ast.Delete) and u(s.node.targets[0]) == f"{writers}[{key}]"]
     comp = [s for s in sites(ex) if isinstance(s.node, ast.Call) and dotted(s.node.func) == f"{writer}.on_completed"]
-    ok = len(dele) == 1 and len(comp) == 1 and dele[0].ctx.branch == comp[0].ctx.branch
+    ok = len(dele) == 1 and len(comp) == 1 and dele[0].ctx.branch == comp[0].ctx.branch and dele[0].index < comp[0].index
     rep.ob("G2-expiry", ex, "del writers[key]; writer.on_completed()", ok,
            "an expired group is not both removed from the map and completed: its key keeps feeding a dead group, or the group never ends")
     from ..rules import locals_by_init
@@ -82,6 +87,7 @@ def check(repo: Repo, rep: Report) -> None:
                      ("reactivex/observable/groupedobservable.py", "GroupedObservable._subscribe_core")):
         TC.rule_scheduler_forwarded(rep, "F0-scheduler-forwarded", repo.fn(rel_, q_))
     TC.rule_fanout_loops(rep, "G3-terminal-fan-out", root)
+    TC.rule_no_mutation_while_iterating(rep, "G3-terminal-fan-out", root)
     # the fan-out iterates a snapshot of the group map: ending a group can expire it synchronously (a duration derived from
     # the group itself) and `expire` deletes from the map
     for g_ in root.walk():
@@ -103,6 +109,21 @@ def check(repo: Repo, rep: Report) -> None:
     rep.ob("G2-expiry", root, "the duration sequence is observed through take(1): its first element *or* its completion expires the group",
            len(tk) == 1 and [u(a) for a in tk[0].args] == ["1"],
            "the duration sequence is not cut with take(1): a duration that completes without an element does not expire the group (or fails it)")
+    # every subscription to a group takes a reference on the shared source, unconditionally (as long as a ref-count was given)
+    rep.rule("G6-group-subscription-counted", "GroupedObservable: each subscription holds merged_disposable.disposable together with the group subscription", floor=1)
+    gsub = repo.fn("reactivex/observable/groupedobservable.py", "GroupedObservable.__init__.subscribe")
+    gin = repo.fn("reactivex/observable/groupedobservable.py", "GroupedObservable.__init__")
+    md = gin.params[3] if len(gin.params) > 3 else "merged_disposable"
+    for r_ in [x for x in sites(gsub) if isinstance(x.node, ast.Return)]:
+        v_ = r_.node.value
+        holds = isinstance(v_, ast.Call) and call_name(v_) == "CompositeDisposable" and any(
+            any(isinstance(y, ast.Attribute) and y.attr == "disposable" and u(y.value) == md for y in ast.walk(a_)) for a_ in v_.args) and any(
+            any(is_subscribe_call_(y) for y in ast.walk(a_)) or isinstance(a_, ast.Name) for a_ in v_.args)
+        only_md = all(all((isinstance(y, ast.Name) and y.id == md) or not isinstance(y, (ast.Name, ast.Attribute)) or u(y) == md for y in ast.walk(e_)) for e_, _p in r_.ctx.guards)
+        rep.ob("G6-group-subscription-counted", gsub, f"`{short(r_.node, 70)}` holds a reference of the shared source", (holds and only_md) or
+               (not holds and any((not p_ and u(e_) == md) or (p_ and u(e_) == f"{md} is None") for e_, p_ in r_.ctx.guards)),
+               "a subscription to a group is returned without taking a reference on the operator's RefCountDisposable (or only under some "
+               "state of it): when the other subscribers leave, the source is disposed although this group subscriber is still live")
     sl = signature(model_of(repo), root)["source#0"]
     for slot, pat, kind in (("on_error", r"^e*E$", "error"), ("on_completed", r"^c*C$", "completion")):
         v = sl[slot]
